@@ -106,11 +106,11 @@ theorem specFold_skip (S : WS) (o : Option Nat) (hdead : S.isAlive o = false) :
 
 /-- the initial spec-side invariant of a pack on the existing entity with record `ent` -/
 theorem pinv_init_existing {deps : List (CompId × Mask)} {k : Nat} {ent : SEnt} {pm : Mask} {pvals : List Val}
-    (hc : ent.comps = pm.zip pvals) (hl : pvals.length = pm.length) (hpm : MaskOk pm) (hcl : ClosedUnder deps pm) :
+    (hc : ent.comps = pm.zip pvals) (hl : pvals.length = pm.length) (hpm : MaskOk pm) :
     PInv info deps ent.comps pm k { final := pm } ent [] := by
   have hmap : pm.zip pvals = pm.map (fun x => (x, pvals.getD (pm.idxOf x) none)) := zip_eq_map (maskOk_nodup hpm) hl
   refine
-  { comps := ?_, sorted := hpm, closedF := hcl, srcSub := fun q hq => (by cases hq), srcNodup := List.nodup_nil
+  { comps := ?_, sorted := hpm, closedF := Or.inl rfl, srcSub := fun q hq => (by cases hq), srcNodup := List.nodup_nil
     gone := ?_, srcRepl := fun q hq => (by cases hq), net := fun x _ => (by simp), repl := fun x hx => (by cases hx)
     nocb := fun _ _ _ _ => (by simp), other := fun _ _ _ _ => (by simp), alive := rfl }
   · show ent.comps = pm.map _
